@@ -1,5 +1,6 @@
 import Qryn.Proofs.LogQLMetric
 import Qryn.Proofs.MetricUnwrap
+import Qryn.Proofs.MetricXCorollaries
 /-! # C08 — the SQL generated for LogQL metric queries computes the defined aggregates
 
 Model: `LogQL.planMetric` (tied byte-for-byte to the real planner's SQL text by the `text` stream, its step
@@ -464,6 +465,71 @@ theorem output_series_identified_by_grouped_labels_plan (o : Oracles) (c : MCtx)
     ∀ r ∈ evalSelA o (d.toDbM c) (planMetric c q), GroupedKL o g (r.get "fingerprint") (r.get "labels") :=
   output_series_grouped o c hn d q a g hsup hsc ha hg
 
+/-! ## the labelled path: selectors with `| json` / `| regexp` / `| drop`, and `quantile_over_time` -/
+
+/-- **plan_metric_correct_ext** (class `supportedX`, a decidable predicate). Metric queries whose selector carries SQL-side
+    pipeline stages after the stream selector — `| json l="path", …`, `| regexp "…"`, `| drop a, b="v"`, label filters on
+    stored *or extracted* labels and line filters after them, in any order and number (C07's extended fragment) — under
+    rate / count_over_time / bytes_rate / bytes_over_time, or ending in `| unwrap x` under rate / sum / avg / min / max /
+    first / last / stdvar / stddev_over_time, or `quantile_over_time(φ, … | unwrap x [d])` with or without such stages;
+    a grouping clause on an unwrapped / quantile range aggregation; alone, under a grouped vector aggregation
+    (sum/min/max/avg/count/stddev/stdvar), under topk/bottomk; comparisons anywhere; any step; range a positive whole
+    number of milliseconds; ≤ 63 matchers. For every such query, every context and every database:
+    `evalSelA (planMetricX c q)`, value column read as a number, `=` `evalMetricX c q` — the entries the selector AND
+    every written pipeline stage let through (C07's `stagesX` over `entriesAtJoin`: each entry with its own stream's
+    labels as rewritten by the json / regexp / drop stages up to that point, in the series of its rewritten label set),
+    bucketed by series and range window, the range function applied to exactly those entries, then the aggregation over
+    the kept label sets, comparison thresholds, top/bottom-k, step re-bucketing. The entries are read in timestamp order
+    (`main` is ordered by timestamp before the labels join), so first/last_over_time among entries of equal timestamp,
+    `any(labels)` and the order of first occurrence are those of that order on both sides.
+    `quantile(φ)(x)`: `Sql.SemAgg` and the direct reading apply the same uninterpreted `Oracles.quantile φ` to the values of
+    the group in row order; nothing is assumed of ClickHouse's algorithm (reservoir sampling, interpolation). What the
+    theorem does say of `QuantilePlanner`: its groups are exactly the (series, range bucket) groups of the entries the
+    pipeline lets through, φ is the written parameter, the labels are the series', the window is `[from, to)`.
+    This composes C07's `plan_correct_ext` construction (re-proved for `Sql.SemAgg`: `Proofs/MetricXRuns`) with the range
+    and vector stages; the statement is tied to the real planner byte for byte by the `textx` stream. -/
+theorem plan_metric_correct_ext (o : Oracles) (c : MCtx) (hn : c.namesOk) (d : LokiDb) (q : MetricQueryX)
+    (hsup : supportedX q = true) :
+    (evalSelA o (d.toDbM c) (planMetricX c q)).map normRow = evalMetricX o c d q :=
+  planMetricX_correct o c hn d q hsup
+
+/-- **`QuantilePlanner`, stage level** (no hypothesis on the query): over any table of entry points bound to `quant_a`, the
+    SELECT returns one row per (series, range bucket) in order of first occurrence, valued `quantile φ` of exactly the
+    group's values in row order — φ the number the written parameter denotes — with the labels of the group's first member,
+    then the optional HAVING. Independent of what `quantile` computes. -/
+theorem quantile_stage (o : Oracles) (db : Db) (env : Env) (phi : NumLit) (d : Nat) (hd : 0 < d) (T : Table) (pts : List Pt)
+    (h : Rep T pts) (hT : env.lookup (.named "quant_a") = some T) (cm : Option Comparison) :
+    Rep (evalBodyA o db env (quantBody phi d (cmpHaving cm))) (cmpStage cm (rangeCore (quantileVal o phi) d pts)) :=
+  quant_eval o db env phi d hd T pts h hT cm
+
+/-- φ is passed through unchanged: the literal `QuantilePlanner` writes denotes the number the query's parameter denotes
+    (parameters of at most six decimals; `%f` keeps six) -/
+theorem quantile_param_passthrough (phi : NumLit) :
+    ∃ u s, quantileCol phi = .quantileAgg u s "value" ∧ ((u : Int) : Rat) / (((10 ^ s : Nat) : Int) : Rat) = numOf phi :=
+  ⟨_, _, rfl, rfl⟩
+
+/-- **no entry outside the window contributes** (labelled path): entries outside `[from, to)` may be changed, added or
+    removed without changing a row of the result -/
+theorem no_entry_outside_window_contributes_ext (o : Oracles) (c : MCtx) (hn : c.namesOk) (d d' : LokiDb) (q : MetricQueryX)
+    (hsup : supportedX q = true) (h : SameInside d d' c.fromNs c.toNs) :
+    (evalSelA o (d.toDbM c) (planMetricX c q)).map normRow = (evalSelA o (d'.toDbM c) (planMetricX c q)).map normRow :=
+  outside_window_irrelevantX o c hn d d' q hsup h
+
+/-- **output series are identified by exactly the grouped label set** (labelled path): every row returned for
+    `aggOp by/without g (…)` has as labels exactly what `g` keeps of a (rewritten) label set and as fingerprint cityHash64
+    of exactly those -/
+theorem output_series_identified_by_grouped_labels_ext (o : Oracles) (c : MCtx) (hn : c.namesOk) (d : LokiDb)
+    (q : MetricQueryX) (a : VecOp) (g : Grouping) (hsup : supportedX q = true) (ha : q.agg = some a)
+    (hg : chosenGrouping a.byPrefix a.bySuffix = some g) :
+    ∀ r ∈ evalSelA o (d.toDbM c) (planMetricX c q), GroupedKL o g (r.get "fingerprint") (r.get "labels") :=
+  output_series_groupedX o c hn d q a g hsup ha hg
+
+/-- **every pipeline stage written in the query takes effect**: the direct reading the statement is proved equal to is a
+    function of the entries `stagesX post (entriesAtJoin …)` — every stage of `post` applied in order — and of nothing else
+    of the samples table -/
+theorem ext_stages_take_effect (o : Oracles) (c : Ctx) (d : LokiDb) (r : RangeAggX) :
+    entriesX o c d r = stagesX o r.post (entriesAtJoin o c d r.sel) := rfl
+
 /-! ## non-vacuity -/
 example : LraRows [[("_string", .str [97, 98])]] [⟨1, 5, [97, 98], 1⟩] := by unfold LraRows; decide
 example : UnwrapRows [[("unwrap_1.value", .rat 2), ("unwrap_1.timestamp_ns", .int 7)]] [(7, 2)] := by unfold UnwrapRows; decide +kernel
@@ -487,5 +553,14 @@ example (lo hi : Int) : SameInside ⟨[], [], [⟨1, lo - 1, [], 1⟩]⟩ ⟨[],
   refine ⟨rfl, rfl, ?_⟩
   simp
   omega
+
+
+-- the labelled class is inhabited: rate over `| json x="a" | x="1"`, sum by (x) of it under topk; quantile over unwrap
+example : supportedX ⟨⟨.lra .rate, ⟨[], []⟩, [.ch (.json [([120], [.key [97]])]), .fl (.label (.str "x" .eq [49]))], 5000000000,
+    none, none, none⟩, none, none⟩ = true := by decide
+example : supportedX ⟨⟨.unwrap .sumOT "x", ⟨[], []⟩, [.ch (.drop [([97], [])])], 5000000000, none, some ⟨true, ["a"]⟩, none⟩,
+    some ⟨.sum, some ⟨true, ["x"]⟩, none, none⟩, some ⟨true, 2, none⟩⟩ = true := by decide
+example : supportedX ⟨⟨.quantile ⟨0, [5]⟩ "x", ⟨[], []⟩, [], 5000000000, none, none, none⟩, none, none⟩ = true := by decide
+example : supportedX ⟨⟨.lra .rate, ⟨[], []⟩, [], 5000000000, none, none, none⟩, none, none⟩ = false := by decide
 
 end Qryn.C08
